@@ -987,7 +987,12 @@ func main() {
 		for _, f := range flaky[:min(len(flaky), 10)] {
 			fmt.Fprintln(os.Stderr, "NON-REPRODUCIBLE:", f)
 		}
-		fw.Fatalf("%d failures did not reproduce in a fresh runtime (harness nondeterminism, not a verdict)", len(flaky))
+		// only a harness error when nothing else was found: a tree that breaks sharing in a state-dependent way may
+		// produce failures that do not reproduce next to failures that do, and those carry the verdict
+		if run.Violations() == 0 {
+			fw.Fatalf("%d failures did not reproduce in a fresh runtime (harness nondeterminism, not a verdict)", len(flaky))
+		}
+		run.Note("%d failures did not reproduce in a fresh runtime and were dropped", len(flaky))
 	}
 
 	bounds := map[string]any{
